@@ -5,7 +5,7 @@ import copy
 
 from ..rulekit import *
 from ..norm import Normalizer, Poly, NormError, INF
-from ..exc import EscapeAnalysis
+from ..exc import EscapeAnalysis, Esc
 
 R = Rules(
     "C15",
@@ -1072,6 +1072,71 @@ def _locate(prog, esc):
     return fi, best
 
 
+class _EnumAwareEscapes(EscapeAnalysis):
+    """Escape analysis that knows what constructing an enumeration by value does.
+
+    `Cls(value)` on an Enum class is a *lookup*: the metaclass looks the value up in the member table and,
+    when it is not there, calls the `_missing_` hook found along the MRO of Cls (enum.Enum.__new__); whatever that
+    hook raises leaves the constructor call.  The engine resolves a class call to __new__/__init__ only, so the
+    hook -- the one piece of package code an enum lookup runs -- is added here: for every call the resolver
+    classifies as a class construction of a class with an Enum ancestor, the escape set of the `_missing_` the
+    package defines for it (bound to that class, so that super()._missing_ resolves along its MRO) joins the
+    escapes of the call.  This over-approximates ("the value may be unknown to the table"), which is the sound
+    direction for "nothing but UnparsableMessage leaves the parser"; it is not applied where the engine's lemma L4
+    proved the argument to range over member values only (then the hook is never entered).  Nothing here depends
+    on which enum, which hook or which exception: an open enum whose hook accepts every value contributes no escape.
+    """
+
+    ENUM_ROOTS = ("Enum", "IntEnum", "IntFlag", "Flag", "StrEnum", "ReprEnum")
+
+    def _is_enum(self, c):
+        return any(x.split(".")[-1] in self.ENUM_ROOTS for x in self.prog.mro(c)[1:])
+
+    BUILTIN_TYPES = ("int", "str", "bytes", "float", "object", "tuple", "frozenset", "bool")
+
+    def _call(self, fi, call, shape, st):
+        f = call.func
+        # `int.__new__(cls, value)` -- the allocation step of a builtin base type, as enum hooks and
+        # immutable subclasses spell it -- is the builtin's constructor, not a method of the package: the engine's
+        # unique-method-name fallback would bind it to the only `__new__` the package happens to define.  It raises
+        # what `int(value)` raises (the engine's rule: ValueError when the argument is string-like).
+        if (isinstance(f, ast.Attribute) and f.attr == "__new__" and isinstance(f.value, ast.Name) and f.value.id in self.BUILTIN_TYPES
+                and not self.res._is_local(fi, f.value.id) and not self.res.class_of_name(fi, f.value.id)):
+            out = set()
+            for a_ in call.args:
+                out |= set(self._expr(fi, a_, shape, st))
+            if f.value.id in ("int", "float") and len(call.args) >= 2 and (self._strish(fi, call.args[1]) or len(call.args) > 2):
+                out.add(Esc("ValueError", fi.short, call.lineno, stmt_text(call, 80)))
+            return out
+        out = EscapeAnalysis._call(self, fi, call, shape, st)
+        if id(call) in self.dead_nodes or not call.args or not chain(call.func):
+            return out
+        if isinstance(call.func, ast.Name) and call.func.id == "int":
+            return out
+        try:
+            callees, kind = self.res.resolve_callees(fi, call)
+        except Exception:
+            return out
+        if kind != "class":
+            return out
+        c = self.res.class_of_name(fi, chain(call.func))
+        if not c or not self._is_enum(c):
+            return out
+        hook = self.prog.lookup_method(c, "_missing_")
+        if hook is None:
+            return out
+        if self._closed_enum(c) and self._enum_arg_in_range(fi, c, call.args[0]):
+            return out
+        self.enum_hooks.append("%s: %s -> %s" % (fi.short, stmt_text(call, 60), hook.short))
+        return set(out) | {x.with_via(fi.short) for x in self.escapes(hook, self.shape_for(fi, call, hook), c)}
+
+    enum_hooks = None
+
+    def __init__(self, *a, **kw):
+        EscapeAnalysis.__init__(self, *a, **kw)
+        self.enum_hooks = []
+
+
 @R.clause("C15.e", "no exception other than UnparsableMessage escapes _decode_message")
 def e(ctx):
     prog = ctx.prog
@@ -1079,7 +1144,7 @@ def e(ctx):
     formats = [q for q in prog.subclasses("aiocoap.optiontypes.OptionType")]
     ctx.floor("option format classes (subclasses of optiontypes.OptionType)", len(formats), 6)
     prog.func("numbers.optionnumbers.OptionNumber.create_option")
-    EA = EscapeAnalysis(prog, hints={("numbers.optionnumbers.OptionNumber.create_option", "option"): formats})
+    EA = _EnumAwareEscapes(prog, hints={("numbers.optionnumbers.OptionNumber.create_option", "option"): formats})
     # premise for exempting a `self.D[k]` KeyError site: the key is known to be present
     # (membership test / insertion of the same key on every path, nothing in between
     # that could remove it) -- see _kit_c15.present_key_reads
@@ -1117,7 +1182,9 @@ def e(ctx):
         "by_unique_name": EA.res.by_unique_name,
         "format_dispatch_hint": formats,
         "key_present_reads_exempted": sorted(exempt),
+        "enum_lookup_hooks_entered": sorted(set(EA.enum_hooks)),
     }
+    ctx.floor("enumeration lookups by value in the decoding region whose _missing_ hook was analysed", len(set(EA.enum_hooks)), 1)
     ctx.floor("UnparsableMessage raise sites reached from _decode_message", len(good), 3)
 
 
@@ -2377,6 +2444,158 @@ def j(ctx):
 
 
 # ---------------------------------------------------------------------------
+# C15.k  the limit of the size gate is the limit that was announced
+#
+# C15.d decides "a frame above self._my_max_message_size aborts", C15.g decides "the CSM announces
+# Max-Message-Size = self._my_max_message_size".  Both read the attribute at different times (the CSM once in
+# connection_made, the gate for every frame), so "the endpoint aborts exactly the frames above the maximum it
+# announced" additionally needs the attribute to have ONE value over the life of the connection.  That is decided
+# on the definition the attribute resolves to along the MRO of the connection class, whatever its spelling:
+#   * a class-level constant, an instance attribute stored in constructors only, or a property / cached property
+#     whose body reads only attributes that are themselves time-invariant (recursively) -- accepted: the value read
+#     at the gate is the value read at the announcement;
+#   * any store to the attribute outside a constructor, or a property body that reads an attribute of the connection
+#     that is stored outside constructors (peer settings, counters, transport state) -- violation: the value at the
+#     gate is a function of state that changes after the announcement went out;
+#   * a property body the rule cannot read (calls into methods, setters, deleters) -- refused.
+
+
+def _ctor_name(short):
+    return short.split(".")[-1] in ("__init__", "__new__", "__post_init__", "__init_subclass__")
+
+
+def _attr_definition(prog, clsqn, attr):
+    """(kind, ClassInfo, payload) of the first definition of `attr` along the MRO: ('property', ci, [FunctionDef...]) |
+    ('method', ci, [..]) | ('value', ci, expr) | (None, None, None)."""
+    for q in prog.mro(clsqn):
+        ci = prog.classes.get(q)
+        if ci is None:
+            continue
+        defs = [n for n in ci.node.body if isinstance(n, (ast.FunctionDef, ast.AsyncFunctionDef)) and n.name == attr]
+        if defs:
+            decos = [chain(d) or _txt(d) for n in defs for d in n.decorator_list]
+            plain = all(x.split(".")[-1] in ("property", "cached_property") for x in decos) and len(defs) == 1 and decos
+            return ("property" if plain else "method"), ci, defs
+        if attr in ci.attrs:
+            return "value", ci, ci.attrs[attr]
+    return None, None, None
+
+
+def _time_invariant(ctx, clsqn, attr, hierarchy, seen, trail):
+    """None when self.<attr> has one value from the end of construction on; else (FuncInfo or None, node, reason).
+    Raises AnalysisError on definitions that cannot be read."""
+    prog = ctx.prog
+    if attr in seen:
+        return None
+    seen.add(attr)
+    late = []
+    early = 0
+    for short, hits in sorted(field_writers(prog, attr).items()):
+        wfi = prog.func(short)
+        owner = wfi
+        while owner is not None and owner.cls is None:
+            owner = owner.parent
+        # a store through another receiver in an unrelated class is a different object's attribute
+        related = owner is None or owner.cls.qn in hierarchy or clsqn in prog.mro(owner.cls.qn)
+        for kind, node in hits:
+            recv_self = any(isinstance(n, ast.Attribute) and n.attr == attr and isinstance(n.value, ast.Name) and n.value.id in ("self", "cls") for n in ast.walk(node))
+            if not related and recv_self:
+                continue
+            if _ctor_name(short) and wfi.parent is None and recv_self:
+                early += 1
+            else:
+                late.append((wfi, node, kind))
+    if late:
+        wfi, node, kind = late[0]
+        return wfi, node, "%s is stored (%s) in %s, after the connection was set up" % (" > ".join(trail + ["self." + attr]), kind, wfi.short)
+    kind, ci, payload = _attr_definition(prog, clsqn, attr)
+    if kind is None:
+        if early:
+            return None
+        raise AnalysisError("C15.k: no definition of %s found along the MRO of %s" % (attr, clsqn))
+    if kind == "value":
+        for n in ast.walk(payload):
+            if isinstance(n, (ast.Call, ast.Lambda, ast.Await)) :
+                fn = chain(n.func) if isinstance(n, ast.Call) else None
+                if fn in ("int", "min", "max", "len", "pow", "abs", "float", "bool", "str", "bytes", "frozenset", "tuple"):
+                    continue
+                raise AnalysisError("C15.k: class-level value of %s is computed by a call the rule does not read: %s" % (attr, _txt(payload)))
+        return None
+    if kind == "method":
+        raise AnalysisError("C15.k: %s.%s is defined by a method with decorators / accessors the rule does not read (%s)" % (
+            ci.qn, attr, ", ".join(sorted({chain(d) or _txt(d) for n in payload for d in n.decorator_list})) or "plain method"))
+    fnode = payload[0]
+    if all((chain(d) or "").split(".")[-1] == "cached_property" for d in fnode.decorator_list):
+        # computed at the first read and kept: the announcement in connection_made is a read that precedes every
+        # size gate, and no store replaces the cached value (no late writer, checked above)
+        return None
+    if isinstance(fnode, ast.AsyncFunctionDef):
+        raise AnalysisError("C15.k: %s.%s is an async property" % (ci.qn, attr))
+    a = fnode.args
+    first = (a.posonlyargs + a.args)[0].arg if (a.posonlyargs + a.args) else None
+    ctx.need(first is not None, "C15.k: property %s.%s takes no receiver" % (ci.qn, attr))
+    pfi = ci.methods.get(attr)
+    reads = []
+    opaque = []
+    for n in ast.walk(fnode):
+        if n in fnode.decorator_list:
+            continue
+        if isinstance(n, ast.Attribute) and isinstance(n.value, ast.Name) and n.value.id == first:
+            reads.append(n)
+        elif isinstance(n, ast.Attribute) and isinstance(n.value, ast.Call) and chain(n.value.func) == "type" and len(n.value.args) == 1 \
+                and isinstance(n.value.args[0], ast.Name) and n.value.args[0].id == first:
+            reads.append(n)
+        elif isinstance(n, ast.Attribute) and isinstance(n.value, ast.Attribute) and n.value.attr == "__class__" and isinstance(n.value.value, ast.Name) and n.value.value.id == first:
+            reads.append(n)
+        elif isinstance(n, ast.Name) and n.id == first and isinstance(n.ctx, ast.Load):
+            pass
+        if isinstance(n, (ast.Global, ast.Nonlocal, ast.Yield, ast.YieldFrom, ast.Await)):
+            opaque.append(n)
+    # the receiver itself must not leak into anything but attribute reads (a call `f(self)` could read any state)
+    attr_bases = {id(n.value) for n in reads} | {id(n.value.args[0]) for n in reads if isinstance(n.value, ast.Call)} | {id(n.value.value) for n in reads if isinstance(n.value, ast.Attribute)}
+    for n in ast.walk(fnode):
+        if isinstance(n, ast.Name) and n.id == first and isinstance(n.ctx, ast.Load) and id(n) not in attr_bases:
+            opaque.append(n)
+    for n in reads:
+        if n.attr == "__class__":
+            continue
+        bad = _time_invariant(ctx, clsqn, n.attr, hierarchy, seen, trail + ["%s.%s" % (ci.qn.split(".")[-1], attr)])
+        if bad is not None:
+            return (pfi, n, bad[2]) if pfi is not None else bad
+    # methods of the connection called from the property: not read
+    for n in ast.walk(fnode):
+        if isinstance(n, ast.Call) and isinstance(n.func, ast.Attribute) and isinstance(n.func.value, ast.Name) and n.func.value.id == first:
+            k2, _, _ = _attr_definition(prog, clsqn, n.func.attr)
+            if k2 in ("method", "property"):
+                opaque.append(n)
+    if opaque:
+        raise AnalysisError("C15.k: the property %s.%s computes the limit in a way the rule does not read: %s" % (ci.qn, attr, _txt(opaque[0])))
+    return None
+
+
+@R.clause("C15.k", "the maximum message size the size gate enforces is the one the CSM announced: self._my_max_message_size has one value over the life of the connection")
+def k(ctx):
+    prog = ctx.prog
+    fi = prog.func(TCP + "TcpConnection.data_received")
+    clsqn = fi.cls.qn
+    hierarchy = set(prog.mro(clsqn))
+    attr = "_my_max_message_size"
+    users = [f_.short for f_ in prog.funcs.values() if f_.cls is not None and f_.cls.qn in hierarchy
+             and any(isinstance(n, ast.Attribute) and n.attr == attr and isinstance(n.ctx, ast.Load) for n in ast.walk(f_.node))]
+    ctx.floor("functions of the connection class reading self.%s (size gate, CSM announcement)" % attr, len(users), 2)
+    bad = _time_invariant(ctx, clsqn, attr, hierarchy, set(), [])
+    kind, ci, payload = _attr_definition(prog, clsqn, attr)
+    where = (ci.methods.get(attr) if kind == "property" else None)
+    if bad is None:
+        ctx.ob("self.%s is the same value at the CSM announcement and at the size gate of every later frame" % attr, True, where, payload[0] if kind == "property" else None,
+               construct="%s.%s (%s)" % (ci.qn.split(".")[-1] if ci else clsqn.split(".")[-1], attr, kind or "instance attribute set in the constructor"))
+    else:
+        bfi, node, why = bad
+        ctx.ob("self.%s is the same value at the CSM announcement and at the size gate of every later frame (a frame within the announced maximum must not be aborted, one above it must)" % attr,
+               False, bfi, node, detail=why, construct=_txt(node)[:80])
+
+
+# ---------------------------------------------------------------------------
 # seeded faults (sensitivity self-test)
 
 F_OPT = "aiocoap/options.py"
@@ -2486,6 +2705,9 @@ R.seed("C15.c", F_TCP, _ITER_TAIL,
        "            chunk = self._spool[:msglen]\n            if not self._one_frame(chunk):\n                return\n\n" + _per_frame(" False", " False", " True"),
        "per-frame function, spool never advanced")
 # C15.e
+R.seed("C15.e", "aiocoap/util/__init__.py", "        new_member = int.__new__(cls, value)\n", "        if value > 0xFFFF:\n            raise ValueError(value)\n        new_member = int.__new__(cls, value)\n", "an enum lookup hook (_missing_) rejects values: ValueError from Code(...) / OptionNumber(...) / ContentFormat(...) while parsing")
+R.seed("C15.k", F_COMMON, "    _my_max_message_size = 1024 * 1024\n", "    _local_mms = 1024 * 1024\n\n    @property\n    def _my_max_message_size(self):\n        return self._local_mms if self._remote_settings is None else 1152\n", "the limit becomes a property of the peer's settings: smaller at the gate than announced")
+R.seed("C15.k", F_COMMON, "            if self._remote_settings is None:\n                self._remote_settings = {}\n", "            if self._remote_settings is None:\n                self._remote_settings = {}\n                self._my_max_message_size = 1152\n", "the limit is lowered when the peer's CSM arrives, after the own CSM announced the larger one")
 R.seed("C15.e", F_TCP, "        raise error.UnparsableMessage(\"Overly long token\")", "        raise ValueError(\"Overly long token\")", "foreign exception from _decode_message")
 R.seed("C15.e", F_OPT, "                raise UnparsableMessage(\"Option announced but absent\")", "                raise IndexError(\"Option announced but absent\")", "foreign exception from option parsing")
 # C15.f
